@@ -10,6 +10,12 @@ pub const ALPHABET: [&str; 40] = [
     "0", "1", "9", "e", "E", "t", "o", "m", "x", ".", ",", "+", "-", "*", "/", "^", "%", "(", ")", "{", "}", " ", "\t", "\n", "\u{a0}", "\u{2003}", "\u{3000}", "°", "'", "é", "Ω", "μ", "€", "😀", "\u{301}", "_", "=", "\"", "\\", "\0",
 ];
 
+/// Token-level alphabet: whole tokens, so that structures of six tokens (`_{m}_1`) are reached.
+pub const TOKS: [&str; 12] = [" ", "1", "m", "{", "}", "(", ")", "+", "to", ",", "1.5", "*"];
+/// Unit strings with trailing content, parsed through `str::parse::<Compound>` right before the
+/// judged input on the same thread (the unit grammar stops early and leaves look-ahead behind).
+pub const POLLUTERS: [&str; 5] = ["km/h ", "km )", "m/s²", "kg*m (", "1"];
+
 #[derive(Debug)]
 pub struct Loss {
     pub class: &'static str,
@@ -102,7 +108,7 @@ impl Prop for C12 {
         "C12"
     }
     fn rule(&self) -> String {
-        "every string over a 40-symbol alphabet (digits, e/E, letters t o m x, operators, brackets, braces, six blank kinds incl. NBSP/U+2003/U+3000, degree sign, apostrophe, 2-4 byte letters, a combining mark, _ = \" \\ and NUL) up to length 5 (quick) / 6 (thorough) through lexer and parser. A case is a 2-symbol prefix whose check enumerates all completions (bulk). Oracle: tokens non-empty, end on character boundaries, cover the input exactly; parse_root succeeds and the childless non-empty nodes of the tree, in order, equal the lexer's (kind,len) sequence and tile the input. Non-trivial = the string lexes into >=2 tokens; distinct by construction (distinct strings)".into()
+        "every string over a 40-symbol alphabet (digits, e/E, letters t o m x, operators, brackets, braces, six blank kinds incl. NBSP/U+2003/U+3000, degree sign, apostrophe, 2-4 byte letters, a combining mark, _ = \" \\ and NUL) up to length 5 (quick) / 6 (thorough) through lexer and parser; every sequence of up to 6 whole tokens over a 12-token alphabet (blank, number, word, braces, parentheses, +, to, comma, decimal, *); every string up to length 3 parsed right after a unit string with trailing content went through str::parse::<Compound> on the same thread (5 such strings). A case is a 2-symbol prefix whose check enumerates all completions (bulk). Oracle: tokens non-empty, end on character boundaries, cover the input exactly; parse_root succeeds and the childless non-empty nodes of the tree, in order, equal the lexer's (kind,len) sequence and tile the input. Non-trivial = the string lexes into >=2 tokens; distinct by construction (distinct strings)".into()
     }
     fn assumptions(&self) -> Vec<String> {
         vec!["strings longer than 6 symbols are covered only by C11's seeds and token sequences".into()]
@@ -117,9 +123,67 @@ impl Prop for C12 {
                 sink(Case::new("prefix2", format!("{a},{b}")));
             }
         }
+        for a in 0..TOKS.len() {
+            for b in 0..TOKS.len() {
+                sink(Case::new("tokens6", format!("{a},{b}")));
+            }
+        }
+        for p in 0..POLLUTERS.len() {
+            for a in 0..40 {
+                sink(Case::new("after-unit-parse", format!("{p},{a}")));
+            }
+        }
     }
     fn check(&self, env: &mut Env, case: &Case) -> Verdict {
         let idx: Vec<usize> = if case.key.is_empty() { vec![] } else { case.key.split(',').map(|s| s.parse().unwrap()).collect() };
+        if case.fam == "tokens6" || case.fam == "after-unit-parse" {
+            let (alphabet, start, maxlen, polluter): (&[&str], String, usize, Option<&str>) = if case.fam == "tokens6" {
+                (&TOKS, format!("{}{}", TOKS[idx[0]], TOKS[idx[1]]), 6, None)
+            } else {
+                (&ALPHABET, ALPHABET[idx[1]].to_string(), 3, Some(POLLUTERS[idx[0]]))
+            };
+            let depth0 = if case.fam == "tokens6" { 2 } else { 1 };
+            let mut evals = 0u64;
+            let mut nontrivial = 0u64;
+            let mut obs = 0u64;
+            let mut first: Option<(String, String)> = None;
+            fn rec2(buf: &mut String, depth: usize, maxlen: usize, alphabet: &[&str], polluter: Option<&str>, evals: &mut u64, nontrivial: &mut u64, obs: &mut u64, first: &mut Option<(String, String)>) {
+                *evals += 1;
+                if let Some(p) = polluter {
+                    let _ = std::panic::catch_unwind(|| p.parse::<anything::Compound>().is_ok());
+                }
+                match judge_caught(buf, true) {
+                    Ok((n, h)) => {
+                        if n >= 2 {
+                            *nontrivial += 1;
+                        }
+                        *obs = obs.wrapping_mul(1099511628211).wrapping_add(h);
+                    }
+                    Err(l) => {
+                        if first.is_none() {
+                            let ctx = polluter.map(|p| format!(" (parsed right after str::parse::<Compound>({p:?}) on the same thread)")).unwrap_or_default();
+                            *first = Some((l.class.to_string(), format!("input \"{}\"{ctx}: {}", show(buf), l.why)));
+                        }
+                    }
+                }
+                if depth < maxlen {
+                    for sym in alphabet {
+                        let len = buf.len();
+                        buf.push_str(sym);
+                        rec2(buf, depth + 1, maxlen, alphabet, polluter, evals, nontrivial, obs, first);
+                        buf.truncate(len);
+                    }
+                }
+            }
+            let mut buf = start;
+            rec2(&mut buf, depth0, maxlen, alphabet, polluter, &mut evals, &mut nontrivial, &mut obs, &mut first);
+            env.bulk_evals += evals - 1;
+            env.bulk_nontrivial += nontrivial.saturating_sub(1);
+            return match first {
+                None => fw::pass(nontrivial > 0, obs),
+                Some((sig, why)) => fw::fail(format!("{sig}:{}", case.fam), why),
+            };
+        }
         let prefix: String = idx.iter().map(|i| ALPHABET[*i]).collect();
         let (lp, ll) = match (case.fam, env.tier) {
             ("short", _) => (idx.len(), idx.len()),
